@@ -153,5 +153,7 @@ NoSpuriousError == status = "error" => ~Compatible(groups)
 PrefixRight == \A i \in DOMAIN out : out[i] \in {"empty", Genome[i]}
 \* deriving a context never changes the names this one ignores
 DeriveFrame == [][ctxIgnored' = ctxIgnored]_vars
+\* a derived context ignores everything its parent ignores, and the added names
+DerivedKeepsIgnored == \A d \in derived : ctxIgnored \subseteq d /\ Unknown \in d
 TypeOK == status \in {"run", "deferred", "error", "completed"} /\ ci \in 1..(Len(Genome) + 1)
 ==============================================================================
